@@ -64,6 +64,8 @@ FIELD_INFO = {
     "nkind": {"att": "nkind", "name": "nkind", "keys": ["nkind"], "type": "str"},
     "tt":    {"att": "tt", "name": "tt", "keys": ["tt"], "type": "int"},
     "hp":    {"att": "hp", "name": "hp", "keys": ["hp"], "type": "int"},
+    "wd":    {"att": "wd", "name": "wd", "keys": ["wd"], "type": "int"},
+    "r2":    {"att": "r2", "name": "r2", "keys": ["r2"], "type": "int"},
     "ratio": {"att": "ratio", "name": "ratio", "keys": ["ratio"], "type": "int"},
     "dbl":   {"att": "dbl", "name": "dbl", "keys": ["dbl"], "type": "posint"},
     "tb":    {"att": "tb", "name": "tb", "keys": ["tb"], "type": "int"},
@@ -124,9 +126,15 @@ def source(plan):
     if "hid" in fs and "pos" in fs and plan["base"] == "schema" and plan.get("hp"):
         # depends on a field kept out of the key view AND on an ordinary one
         L += ["    @property", "    @Field(dependencies=['hid', 'pos'])", "    def hp(self) -> int:", "        return self.hid + self.pos + 1000"]
+    if plan.get("wd"):
+        # a property with a getter and a deleter, no setter
+        L += ["    _wd = 7", "    @property", "    def wd(self) -> int:", "        return self._wd",
+              "    @wd.deleter", "    def wd(self):", "        self._wd = 0"]
     if "pos" in fs and plan.get("ratio"):
         # a getter that cannot be computed for every valid value of its field (pos = 0)
-        L += ["    @property", "    @Field(dependencies=['pos'])", "    def ratio(self) -> int:", "        return 100 // self.pos"]
+        L += ["    @property", "    @Field(dependencies=['pos'])", "    def ratio(self) -> int:", "        return 100 // self.pos",
+              # ... and a property on top of it: when ratio goes, r2 has nothing to stand on
+              "    @property", "    @Field(dependencies=['ratio'])", "    def r2(self) -> int:", "        return self.ratio + 1"]
     if plan.get("dbl"):
         # a property whose declared output type rejects what some valid values of its field give (req < 0)
         L.insert(2, "from utype import Rule")
@@ -152,7 +160,8 @@ def source(plan):
     if "w" in fs:
         L += ["    _w = 0", "    @property", "    def w(self) -> int:", "        return self._w",
               "    @w.setter", "    def w(self, v: int = Field(ge=0, required=False)):",
-              "        hook_point('set_w')", "        self._w = v",
+              ("        self._w = v" if plan.get("w_late") else "        hook_point('set_w')"),
+              ("        hook_point('set_w')     # fails after it has changed the instance" if plan.get("w_late") else "        self._w = v"),
               "    @w.deleter", "    def w(self):", "        self._w = 0",
               "    @property", "    @Field(dependencies=w)", "    def w2(self) -> int:", "        return self._w * 2"]
     if plan.get("inherit") and L[-1] == "    pass" and len(fs) > 0:
@@ -224,6 +233,8 @@ def generate(rng, tier):
     plan["diamond"] = "total" in fs and rng.random() < 0.4
     plan["ratio"] = "pos" in fs and base == "schema" and rng.random() < 0.35
     plan["hp"] = "hid" in fs and "pos" in fs and base == "schema" and rng.random() < 0.5
+    plan["wd"] = rng.random() < 0.2
+    plan["w_late"] = "w" in fs and rng.random() < 0.4
     plan["dbl"] = base == "schema" and rng.random() < 0.3
     # no field without a default (and no immutable one): clear() and popitem() can go all the way
     plan["noreq"] = "fin" not in fs and rng.random() < 0.35
@@ -259,7 +270,7 @@ def generate(rng, tier):
         init["mreq"] = rng.choice([6, "7"])
     plan["init"] = init
     init_pids = list(pool.used)
-    targets = [k for k in fs] + (["w2"] if "w" in fs else []) + (["nkind"] if "num" in fs and rng.random() < 0.3 else [])
+    targets = [k for k in fs] + (["wd", "wd"] if plan.get("wd") else []) + (["w2"] if "w" in fs else []) + (["nkind"] if "num" in fs and rng.random() < 0.3 else [])
     nops = rng.choice([6, 8, 10, 14, 20]) if tier == "quick" else rng.choice([8, 12, 16, 24])
     ops = []
     schema_ops = ["setattr", "setattr", "delattr", "setitem", "setitem", "delitem", "update_m", "update_kw", "pop", "pop_d",
@@ -376,7 +387,7 @@ def read_attr(inst, att):
     except AttributeError:
         return _MISSING
     except Exception:  # noqa  a property body computing over already-broken data; the broken field itself is reported
-        if att in ("total", "w", "w2", "hsum", "nkind", "tt", "tb", "td", "ratio", "dbl", "cdep", "hp"):
+        if att in ("total", "w", "w2", "hsum", "nkind", "tt", "tb", "td", "ratio", "dbl", "cdep", "hp", "wd", "r2"):
             return _MISSING
         raise
 
@@ -390,7 +401,7 @@ class View:
         self.extra = {}
         is_schema = plan["base"] == "schema"
         names = {}
-        all_kinds = list(plan["fields"]) + (["w2"] if "w" in plan["fields"] else []) + (["hsum"] if plan.get("hsum") else []) + (["nkind"] if "num" in plan["fields"] else []) + (["tt"] if plan.get("tt") else []) + (["tb", "td"] if plan.get("diamond") else []) + (["cdep"] if "camF" in plan["fields"] else []) + (["hp"] if plan.get("hp") else []) + (["ratio"] if plan.get("ratio") else []) + (["dbl"] if plan.get("dbl") else [])
+        all_kinds = list(plan["fields"]) + (["w2"] if "w" in plan["fields"] else []) + (["hsum"] if plan.get("hsum") else []) + (["nkind"] if "num" in plan["fields"] else []) + (["tt"] if plan.get("tt") else []) + (["tb", "td"] if plan.get("diamond") else []) + (["cdep"] if "camF" in plan["fields"] else []) + (["hp"] if plan.get("hp") else []) + (["wd"] if plan.get("wd") else []) + (["ratio", "r2"] if plan.get("ratio") else []) + (["dbl"] if plan.get("dbl") else [])
         for k in all_kinds:
             names[FIELD_INFO[k]["name"]] = k
         if is_schema:
@@ -420,7 +431,7 @@ def check_invariants(plan, inst, initial, res, opname, field, current=True, touc
     v = View(plan, inst)
     fs = plan["fields"]
     is_schema = plan["base"] == "schema"
-    props = {"total", "w", "w2", "hsum", "nkind", "tt", "tb", "td", "ratio", "dbl", "cdep", "hp"}
+    props = {"total", "w", "w2", "hsum", "nkind", "tt", "tb", "td", "ratio", "dbl", "cdep", "hp", "wd", "r2"}
     # I1 conformance of every present field, in both views
     for k, val in v.keys.items():
         if not conforms(k, val):
@@ -443,7 +454,7 @@ def check_invariants(plan, inst, initial, res, opname, field, current=True, touc
             out.append(("I3", "class", "instance of an immutable class changed"))
     # I4 key view and attribute view agree
     if is_schema:
-        for k in list(fs) + (["w2"] if "w" in fs else []) + (["hsum"] if plan.get("hsum") else []) + (["nkind"] if "num" in fs else []) + (["tt"] if plan.get("tt") else []) + (["tb", "td"] if plan.get("diamond") else []) + (["cdep"] if "camF" in plan["fields"] else []) + (["hp"] if plan.get("hp") else []) + (["ratio"] if plan.get("ratio") else []) + (["dbl"] if plan.get("dbl") else []):
+        for k in list(fs) + (["w2"] if "w" in fs else []) + (["hsum"] if plan.get("hsum") else []) + (["nkind"] if "num" in fs else []) + (["tt"] if plan.get("tt") else []) + (["tb", "td"] if plan.get("diamond") else []) + (["cdep"] if "camF" in plan["fields"] else []) + (["hp"] if plan.get("hp") else []) + (["wd"] if plan.get("wd") else []) + (["ratio", "r2"] if plan.get("ratio") else []) + (["dbl"] if plan.get("dbl") else []):
             if k == "hid":
                 if "hid" in v.keys:
                     out.append(("I4", k, "no_output field present in the key view"))
@@ -477,6 +488,10 @@ def check_invariants(plan, inst, initial, res, opname, field, current=True, touc
         if ("hp" in v.keys and v.keys["hp"] != want) or ("hp" not in v.keys and assigning and current and (opname == "init" or {"pos", "hid"} & set(touched))):
             out.append(("I5", "hp", f"hp={v.keys.get('hp', '<absent>')!r} but hid+pos+1000={want!r} (both of its dependencies are there)"))
     if plan.get("ratio") and is_schema and "pos" in v.keys and conforms("pos", v.keys["pos"]):
+        if v.keys["pos"] == 0 and "r2" in v.keys:
+            out.append(("I5", "r2", f"r2={v.keys['r2']!r} is still there although ratio, which it is made of, cannot be computed for pos=0"))
+        elif v.keys["pos"] != 0 and "r2" in v.keys and "ratio" in v.keys and v.keys["r2"] != v.keys["ratio"] + 1:
+            out.append(("I5", "r2", f"r2={v.keys['r2']!r} but ratio+1={v.keys['ratio'] + 1!r}"))
         if v.keys["pos"] == 0 and "ratio" in v.keys:
             out.append(("I5", "ratio", f"ratio={v.keys['ratio']!r} is still there although it cannot be computed for pos=0 (an instance initialized with pos=0 has no ratio)"))
         elif v.keys["pos"] != 0 and "ratio" in v.keys and v.keys["ratio"] != 100 // v.keys["pos"]:
